@@ -151,7 +151,19 @@ pub fn exec(case: &PfCase) -> RunOut {
     syms.extend([distinct[0], max, max.saturating_add(1).min(ty_max), max.saturating_add(2).min(ty_max), ty_max]);
     if max > 0 {
         for _ in 0..4 {
-            syms.push(rng.next_u128() % (max + 1));
+            syms.push(if max == u128::MAX { rng.next_u128() } else { rng.next_u128() % (max + 1) });
+        }
+    }
+    // symbols that alias an occurring symbol when truncated to 8/16/32/64 bits
+    for b in [8u32, 16, 32, 64] {
+        if case.ty.bits() > b {
+            let base = 1u128 << b;
+            for _ in 0..2 {
+                let c = *rng.pick(&distinct);
+                syms.push(base.wrapping_add(c).min(ty_max));
+                syms.push((base << 1).wrapping_add(c).min(ty_max));
+            }
+            syms.push(base.min(ty_max));
         }
     }
     syms.sort();
